@@ -44,7 +44,15 @@ def _observe(args):
     mod = importlib.import_module(mod_name)
     try:
         return mod.observe(case)
-    except Exception as e:  # a crash of the harness itself, not of the code under test
+    except Exception as e:
+        tb = traceback.extract_tb(e.__traceback__)
+        in_repo = [f for f in tb if f.filename.startswith(str(C.REPO) + os.sep)]
+        if in_repo:
+            # raised inside the code under test on an input the module did not expect to be refused:
+            # that is an observation about the implementation (a finding), not a harness failure
+            last = in_repo[-1]
+            return {"_impl_error": f"{type(e).__name__}: {str(e)[:200]}",
+                    "_where": f"{os.path.relpath(last.filename, str(C.REPO))}:{last.name}", "_tb": traceback.format_exc()[-1200:]}
         return {"_harness_error": f"{type(e).__name__}: {e}", "_tb": traceback.format_exc()[-1500:]}
 
 
@@ -59,7 +67,7 @@ def evaluate(mod, ctx, cases, pool):
     t_impl = time.time() - t0
     reqs, spans = [], []
     for c, o in zip(cases, obs):
-        if "_harness_error" in o:
+        if "_harness_error" in o or "_impl_error" in o:
             spans.append((len(reqs), len(reqs)))
             continue
         r = mod.requests(c, o)
@@ -71,6 +79,12 @@ def evaluate(mod, ctx, cases, pool):
     for c, o, (a, b) in zip(cases, obs, spans):
         if "_harness_error" in o:
             herr.append(o)
+            continue
+        if "_impl_error" in o:
+            findings.append({"kind": "property", "case": c, "observed": o["_tb"],
+                             "what": f"the implementation raised {o['_impl_error']} (in {o['_where']}) on an input of the property's "
+                                     "domain that the unchanged code answers"})
+            keys.add(C.case_key(c))
             continue
         rep = replies[a:b]
         bad = [r for r in rep if "driver_error" in r]
